@@ -57,10 +57,9 @@ theorem no_double_start {v : Variant} {s : State} (h : Reachable v s) (hn : s.ad
     for one of them). In particular "a task queued, one worker running, another parked in Wait,
     nothing in flight" is unreachable: a queued task never waits for another task while a worker
     sleeps. No further API call and no polling broadcast is needed. -/
-theorem no_stuck_task {s : State} (h : Reachable repaired s) (hq : s.queue ≠ []) (hw : 0 < s.live) :
+theorem no_stuck_task {s : State} (h : Reachable repaired s) (hq : s.queue ≠ []) :
     (∃ e ∈ internalEvents s, isFinish e = false ∧ (step repaired s e).isSome) ∨
       s.live = cntOf s.pcs .run := by
-  have _ := hw
   rcases enabled_or_parked h with he | ⟨hp, hin⟩
   · exact Or.inl he
   · right
@@ -71,7 +70,7 @@ theorem no_stuck_task {s : State} (h : Reachable repaired s) (hq : s.queue ≠ [
       | nil => exact absurd hs hq
       | cons a l => simp [abs, hs]
     have hQ := hinv.q
-    simp only [State.live, clive] at hw ⊢
+    simp only [State.live, clive]
     simp only [asleep, awake, abs, CState.inflight] at hQ hin hq'
     by_cases hwait : 0 < cntOf s.pcs .waiting
     · have := hQ (by omega)
@@ -138,22 +137,56 @@ theorem internal_of_mem {s : State} {e : Event} (h : e ∈ internalEvents s) : i
     exit, a pool-internal step other than the return of a task is enabled, or every such worker is
     busy running a task (it takes the kill request when the task returns). Each `killExit` step
     decrements `workerKill` and removes one worker; `resize_target` gives the exact count. -/
-theorem resize_converges {s : State} (h : Reachable repaired s) (hk : 0 < s.kill) (hw : 0 < s.live) :
+theorem resize_converges {s : State} (h : Reachable repaired s) (hk : 0 < s.kill) :
     (∃ e ∈ internalEvents s, isFinish e = false ∧ (step repaired s e).isSome) ∨
       s.live = cntOf s.pcs .run := by
-  have _ := hw
   rcases enabled_or_parked h with he | ⟨hp, hin⟩
   · exact Or.inl he
   · right
     have hinv := inv_reachable h
     have hlen := length_eq_sum s.pcs
     have hK := hinv.k (by simpa [abs] using hk)
-    simp only [State.live, clive] at hw ⊢
+    simp only [State.live, clive]
     simp only [asleep, abs, CState.inflight] at hK hin
     by_cases hwait : 0 < cntOf s.pcs .waiting
     · have := hK (by omega)
       omega
     · omega
+
+/-- **A requested shrink is carried out after boundedly many pool-internal steps.** While
+    `workerKill > 0`, along any sequence of pool-internal events in which no worker takes a kill request
+    (`killExit`), the measure `cmuK` — per worker its remaining steps to the loop head, where it must take a
+    request because `killPass` is disabled, plus the steps left of calls in flight — drops by at least one
+    per event and `workerKill` stays as it is: such a sequence from `s` is at most `cmuK (abs s)` long.
+    With `resize_converges` (it can always be continued unless every live worker is busy) and
+    `resize_target` (exact arithmetic): under fairness the requested number of workers exits. -/
+theorem kill_within_bound {s s' : State} {es : List Event} (hk : 0 < s.kill)
+    (hes : ∀ e ∈ es, isInternal e = true ∧ isKillExit e = false)
+    (h : runFrom repaired s es = some s') :
+    es.length + cmuK (abs s') ≤ cmuK (abs s) ∧ s'.kill = s.kill := by
+  induction es generalizing s with
+  | nil => simp [runFrom, List.foldlM] at h; subst h; simp
+  | cons e es ih =>
+    simp only [runFrom, List.foldlM_cons] at h
+    cases hs : step repaired s e with
+    | none => simp [hs] at h
+    | some s1 =>
+      simp [hs] at h
+      have he := hes e (by simp)
+      have hstep := cmuK_step (sim_step hs) (by rw [internal_abs]; exact he.1)
+        (by rw [isKillExit_abs]; exact he.2) (by simpa [abs] using hk)
+      have hk1 : s1.kill = s.kill := by simpa [abs] using hstep.2
+      have := ih (by omega) (fun e' he' => hes e' (by simp [he'])) h
+      simp only [List.length_cons]
+      omega
+
+/-- not vacuous: two workers, one of them asked to leave, both still parked — four internal steps without a
+    `killExit` (the locked broadcast, then the woken worker's way to the loop head) -/
+example : ∃ s s', Reachable repaired s ∧ 0 < s.kill ∧
+    runFrom repaired s [.swcLock, .swcBcast, .wRelock 0, .wUnlock 0, .unregIdle 0] = some s' ∧ s'.kill = 1 :=
+  ⟨_, _, ⟨[.swcSet 2, .killPass 0, .popNone 0, .regIdle 0, .wLock 0, .readQ 0, .readKill 0, .wWait 0,
+            .killPass 1, .popNone 1, .regIdle 1, .wLock 1, .readQ 1, .readKill 1, .wWait 1, .swcSet 1], rfl⟩,
+    by decide, rfl, by decide⟩
 
 example : ∃ s, Reachable repaired s ∧ 0 < s.kill ∧ 0 < s.live :=
   ⟨_, ⟨[.swcUp 2, .swcDown 0], rfl⟩, by decide, by decide⟩
@@ -368,7 +401,8 @@ theorem lost_wakeup_reachable :
       ∀ e ∈ internalEvents s, step pristine s e = none := by
   refine ⟨⟨[.waiting], [7], [7], [], 0, 0, 0, 0, 0⟩, by decide, rfl, rfl, by decide, by decide⟩
 
-/-- the repaired protocol does not admit that schedule: AddTask cannot signal without `L` -/
-theorem losing_schedule_blocked : runFrom repaired init losing = none := by decide
+/-- (example, not a theorem about all schedules) the repaired protocol refuses THIS event list: AddTask
+    cannot signal without `L` -/
+example : runFrom repaired init losing = none := by decide
 
 end Ecal.Props.C09
